@@ -473,8 +473,9 @@ class TU:
             sub = self.recs_by_id.get(f.get("rec")) if f.get("rec") is not None else None
             if sub is not None and self.types[f["t"]].get("arr") is None:
                 out += self.flatten_record(sub, off, (path + ".") if nm else prefix)
-            else:
+            elif nm:
                 out.append((path, off, f.get("bw", f.get("sz")), f.get("signed", False)))
+            # an unnamed bit-field is padding: no leaf (the project keeps flags of an enclosing type in such padding)
         return out
 
 
